@@ -113,6 +113,9 @@ def _std_model(ex, c, args, guard, site):
         return UNIT, T
     if cs.endswith('common::assume') or cs == 'assume':
         a = args[0]
+        # a direct comparison refines the intervals of its operands on the continuing path
+        if getattr(a, 'cmp', None) is not None and ctx.act_stack:
+            ex.refine_branch(ctx.frames[ctx.act_stack[-1]], a, True)
         return UNIT, a.t
     if cs in ('std::process::exit',):
         return None, F
@@ -521,16 +524,30 @@ class Abstraction:
         return out, T
 
 class BoundAbstraction:
-    """answers calls of a crate function from bindings declared by the property function (bind_* marker calls)"""
+    """days_to_date as an uninterpreted function D with point constraints D(key) = triple for every binding the
+    property function declares (bind_days_to_date). A syntactically matching argument is answered directly."""
     def __init__(self, fn_last):
         self.fn_last = fn_last; self.uses = 0
     def applies(self, name): return True
     def apply(self, ex, name, args, guard, site):
         ctx = ex.ctx
         a = ex.deref(args[0])
-        for key, res in getattr(ctx, 'bindings', {}).get(self.fn_last, []):
-            if z3.is_int_value(z3.simplify(a.t - key.t)) and z3.simplify(a.t - key.t).as_long() == 0:
-                self.uses += 1
-                ctx.abstractions_used = getattr(ctx, 'abstractions_used', set()) | {self.fn_last + ' (bound by the property function)'}
-                return res, T
-        raise Inconclusive('%s called on an argument without binding: %s' % (self.fn_last, a))
+        binds = getattr(ctx, 'bindings', {}).get(self.fn_last, [])
+        ctx.abstractions_used = getattr(ctx, 'abstractions_used', set()) | {self.fn_last + ' (bound by the property function)'}
+        self.uses += 1
+        for key, res in binds:
+            dlt = z3.simplify(a.t - key.t)
+            if z3.is_int_value(dlt) and dlt.as_long() == 0: return res, T
+        if not binds: raise Inconclusive('%s called without any binding' % self.fn_last)
+        I = z3.IntSort()
+        fy = z3.Function('B_%s_y' % self.fn_last, I, I); fm = z3.Function('B_%s_m' % self.fn_last, I, I); fd = z3.Function('B_%s_d' % self.fn_last, I, I)
+        done = getattr(ctx, '_bound_asserted', set())
+        for key, res in binds:
+            kid = key.t.get_id()
+            if kid in done: continue
+            done.add(kid); ctx.keep.append(key.t)
+            ctx.side += [fy(key.t) == res.f[0].t, fm(key.t) == res.f[1].t, fd(key.t) == res.f[2].t]
+        ctx._bound_asserted = done
+        y = IV(fy(a.t), 'i32', -2**31, 2**31 - 1); m = IV(fm(a.t), 'u32', 0, 2**32 - 1); d = IV(fd(a.t), 'u32', 0, 2**32 - 1)
+        ctx.side += [y.t >= y.lo, y.t <= y.hi, m.t >= 0, m.t <= m.hi, d.t >= 0, d.t <= d.hi]
+        return Agg([y, m, d]), T
